@@ -154,6 +154,12 @@ func ioGenome(g *G, modules bool, allowInf bool) (*genetics.Genome, string) {
 		}
 		fam += fmt.Sprintf("+floats%d", mode)
 	}
+	if len(gn.ControlGenes) == 0 && g.chance(0.08) {
+		// node list NOT ascending by id (a start genome built in code, or a file that lists the output first): every
+		// encoding must give back the node list it was given, in its order
+		g.gr.Shuffle(len(gn.Nodes), func(i, j int) { gn.Nodes[i], gn.Nodes[j] = gn.Nodes[j], gn.Nodes[i] })
+		fam += "+nodes-unsorted"
+	}
 	return gn, fam
 }
 
@@ -469,6 +475,17 @@ func opIoOrganism(g *G) (interface{}, []uint64, int, interface{}) {
 	out.WriteErr = errStr(err)
 	if err != nil {
 		return in, nil, 0, out
+	}
+	if g.chance(0.5) {
+		// the binary form must stay valid while OTHER organisms are marshalled (the parallel executor sends many over a
+		// channel before any is decoded): marshal a few more before decoding this one
+		for k := 1 + g.intn(3); k > 0; k-- {
+			gn2, _ := ioGenome(g, false, true)
+			if o2, e2 := genetics.NewOrganism(ioFloat(g, true), gn2, g.intn(500)); e2 == nil {
+				_, _ = o2.MarshalBinary()
+			}
+		}
+		in.Family += "+interleaved"
 	}
 	in.Text = string(data)
 	back := &genetics.Organism{}
